@@ -40,6 +40,10 @@ def _build(case):
         elif mode == 'chain':
             k = i % max(1, len(ids) - 1)
             v = [b for b in (ids[k], ids[(k + 1) % len(ids)]) if b in cand]
+        elif mode == 'ring':
+            # like chain, but the last station is also seen together with the first one
+            k = i % len(ids)
+            v = [b for b in (ids[k], ids[(k + 1) % len(ids)]) if b in cand]
         elif mode == 'split':
             half = len(ids) // 2
             group = ids[:half] if i % 2 == 0 else ids[half:]
@@ -290,7 +294,7 @@ def room_case(draw):
     if draw(st.sampled_from([False, False, True])):
         ids = list(range(n))
     ncf = draw(st.one_of(st.integers(3, 12), st.integers(3, 40)))
-    vis = draw(st.sampled_from(['full', 'full', 'random', 'random', 'chain', 'split'])) if n >= 3 else draw(st.sampled_from(['full', 'full', 'random']))
+    vis = draw(st.sampled_from(['full', 'full', 'random', 'random', 'chain', 'ring', 'split'])) if n >= 3 else draw(st.sampled_from(['full', 'full', 'random']))
     return {'seed': draw(st.integers(0, 2 ** 31 - 1)), 'ids': ids, 'ncf': ncf, 'visibility': vis, 'timing': draw(st.sampled_from(['sparse', 'sparse', 'dense'])),
             'bs_order': draw(st.sampled_from(['sorted', 'reverse'])), 'max_tilt': draw(st.sampled_from([10.0, 10.0, 3.0, 0.0]))}
 
